@@ -72,8 +72,14 @@ def check(ctx):
         n0 = rng.randint(6, 20)
         X, y = evidence(rng, d, n0, bounds)
         gp = GPyRegression(names, bounds=dict(zip(names, bounds)), max_opt_iters=rng.choice([10, 40]))
-        gp.update(X, y, optimize=rng.random() < .7)
+        first_opt = rng.random() < .7
         phases = ['sample'] + [rng.choice(['sample', 'fit', 'update', 'update-opt', 'optimize']) for _ in range(rng.randint(1, 4))] + ['sample']
+        # every run starts with the three shortest histories that change the surrogate BETWEEN two sampling phases without a
+        # library-path prediction in between
+        if it < 3:
+            first_opt = False
+            phases = [['sample', 'optimize', 'sample'], ['sample', 'update', 'sample'], ['sample', 'update-opt', 'sample', 'optimize', 'sample']][it]
+        gp.update(X, y, optimize=first_opt)
         case = dict(dim=d, bounds=bounds, n_evidence=n0, phases=phases)
         ctx.case(case, d >= 2 or phases.count('sample') >= 2)
         ctx.count('dim', d)
@@ -203,7 +209,7 @@ def check(ctx):
                 ctx.fail_input(dict(case, x=inner.tolist()), 'a (1, d) shaped and a flat query of the same point give %s and %s' % (one_row.tolist(), flat.tolist()))
                 bad = True
                 break
-            if rng.random() < .6:                      # leave most sampling phases WITHOUT a library-path call afterwards
+            if rng.random() < .6 or it < 3:            # leave most sampling phases WITHOUT a library-path call afterwards
                 continue
             gp.is_sampling = False
             pts = np.array([face, out, corner, inner])
